@@ -13,6 +13,8 @@ mod subcmds;
 mod types;
 mod utils;
 mod verify;
+#[cfg(feature = "verif")]
+mod verif_hooks;
 
 use config::AppConfig;
 use env_logger::{Builder, Env, Target};
